@@ -28,12 +28,36 @@ type fdEngine struct {
 	b    int64
 	n    int
 	hist map[string][]int64 // arrivals of each node since its window was created
+	// oracle failures are reported once per case and for at most maxFailCases cases per
+	// process: one broken ring produces a failure on nearly every later op, and a flood of
+	// identical lines only slows the decision down (the shrinker re-runs single cases).
+	caseFailed bool
+	failCases  int
+}
+
+const maxFailCases = 20
+
+func (e *fdEngine) fail(o *Out, clause, detail string) {
+	if e.caseFailed {
+		o.Count("oracle:C12:fail-suppressed")
+		return
+	}
+	e.caseFailed = true
+	e.failCases++
+	if e.failCases > maxFailCases {
+		o.Count("oracle:C12:fail-suppressed")
+		return
+	}
+	o.Fail("C12", clause, detail)
 }
 
 // New returns the engine.
 func New() Engine { return &fdEngine{} }
 
-func (e *fdEngine) Reset() { e.newDetector(1000000000, 50) }
+func (e *fdEngine) Reset() {
+	e.caseFailed = false
+	e.newDetector(1000000000, 50)
+}
 
 func (e *fdEngine) newDetector(b int64, n int) {
 	e.b, e.n = b, n
@@ -171,7 +195,7 @@ func (e *fdEngine) checkState(o *Out, id string) {
 	ok, iv, idx, full, sum, size, last := pgossip.VFDWindow(e.d, id)
 	if !ok {
 		if len(hist) != 0 {
-			o.Fail("C12", "window-missing", Hx(id))
+			e.fail(o, "window-missing", Hx(id))
 		}
 		return
 	}
@@ -180,20 +204,20 @@ func (e *fdEngine) checkState(o *Out, id string) {
 	}
 	win, rsum := refWindow(e.b, e.n, hist)
 	if len(hist) == 0 {
-		o.Fail("C12", "window-unexpected", Hx(id))
+		e.fail(o, "window-unexpected", Hx(id))
 		return
 	}
 	if sum != rsum {
-		o.Fail("C12", "window-sum", fmt.Sprintf("%s sum=%d reference=%d arrivals=%d N=%d", Hx(id), sum, rsum, len(hist), e.n))
+		e.fail(o, "window-sum", fmt.Sprintf("%s sum=%d reference=%d arrivals=%d N=%d", Hx(id), sum, rsum, len(hist), e.n))
 	}
 	if size != len(win) {
-		o.Fail("C12", "window-size", fmt.Sprintf("%s size=%d reference=%d arrivals=%d N=%d", Hx(id), size, len(win), len(hist), e.n))
+		e.fail(o, "window-size", fmt.Sprintf("%s size=%d reference=%d arrivals=%d N=%d", Hx(id), size, len(win), len(hist), e.n))
 	}
 	if idx < 1 || idx > len(iv) || len(iv) != e.n {
-		o.Fail("C12", "ring-index", fmt.Sprintf("%s idx=%d len=%d N=%d", Hx(id), idx, len(iv), e.n))
+		e.fail(o, "ring-index", fmt.Sprintf("%s idx=%d len=%d N=%d", Hx(id), idx, len(iv), e.n))
 	}
 	if full != (len(hist) > e.n) {
-		o.Fail("C12", "ring-full-flag", fmt.Sprintf("%s full=%v arrivals=%d N=%d", Hx(id), full, len(hist), e.n))
+		e.fail(o, "ring-full-flag", fmt.Sprintf("%s full=%v arrivals=%d N=%d", Hx(id), full, len(hist), e.n))
 	}
 	// the ring holds exactly the reference window (as a multiset; slot order is the model's business)
 	if len(hist) >= e.n {
@@ -202,11 +226,11 @@ func (e *fdEngine) checkState(o *Out, id string) {
 		sort.Slice(a, func(i, j int) bool { return a[i] < a[j] })
 		sort.Slice(b, func(i, j int) bool { return b[i] < b[j] })
 		if fmt.Sprint(a) != fmt.Sprint(b) {
-			o.Fail("C12", "ring-contents", fmt.Sprintf("%s ring=%v reference=%v", Hx(id), iv, win))
+			e.fail(o, "ring-contents", fmt.Sprintf("%s ring=%v reference=%v", Hx(id), iv, win))
 		}
 	}
 	if last.UnixNano() != hist[len(hist)-1] {
-		o.Fail("C12", "last-timestamp", fmt.Sprintf("%s last=%d reference=%d", Hx(id), last.UnixNano(), hist[len(hist)-1]))
+		e.fail(o, "last-timestamp", fmt.Sprintf("%s last=%d reference=%d", Hx(id), last.UnixNano(), hist[len(hist)-1]))
 	}
 	o.Count("oracle:C12:state")
 }
@@ -222,22 +246,22 @@ func (e *fdEngine) checkPhi(o *Out, id string, t int64, r res) {
 	last := hist[len(hist)-1]
 	if sum <= 0 {
 		if !r.panicked {
-			o.Fail("C12", "phi-nonpositive-mean", fmt.Sprintf("%s sum=%d phi=%g", Hx(id), sum, r.phi))
+			e.fail(o, "phi-nonpositive-mean", fmt.Sprintf("%s sum=%d phi=%g", Hx(id), sum, r.phi))
 		}
 		return
 	}
 	if r.panicked {
-		o.Fail("C12", "phi-panic", fmt.Sprintf("%s t=%d %s", Hx(id), t, Hx(r.msg)))
+		e.fail(o, "phi-panic", fmt.Sprintf("%s t=%d %s", Hx(id), t, Hx(r.msg)))
 		return
 	}
 	exact := exactPhi(t, last, len(win), sum)
 	// (1) the float is the exact fraction (t-last)/mean(window)
 	if !closeTo(r.phi, exact) {
-		o.Fail("C12", "phi-exact", fmt.Sprintf("%s t=%d phi=%.12g reference=%s arrivals=%d N=%d", Hx(id), t, r.phi, exact.FloatString(9), len(hist), e.n))
+		e.fail(o, "phi-exact", fmt.Sprintf("%s t=%d phi=%.12g reference=%s arrivals=%d N=%d", Hx(id), t, r.phi, exact.FloatString(9), len(hist), e.n))
 	}
 	// (2) zero at the moment of arrival
 	if t == last && r.phi != 0 {
-		o.Fail("C12", "zero-at-arrival", fmt.Sprintf("%s phi=%g", Hx(id), r.phi))
+		e.fail(o, "zero-at-arrival", fmt.Sprintf("%s phi=%g", Hx(id), r.phi))
 	}
 	// (3) window only: a detector fed only the last N+1 arrivals gives the same level
 	tail := hist
@@ -250,7 +274,7 @@ func (e *fdEngine) checkPhi(o *Out, id string, t int64, r res) {
 		e.report(sh, id, a)
 	}
 	if sr := e.query(sh, id, t); sr.panicked || sr.phi != r.phi {
-		o.Fail("C12", "window-only", fmt.Sprintf("%s t=%d phi=%.17g lastN+1=%.17g panic=%v arrivals=%d N=%d", Hx(id), t, r.phi, sr.phi, sr.panicked, len(hist), e.n))
+		e.fail(o, "window-only", fmt.Sprintf("%s t=%d phi=%.17g lastN+1=%.17g panic=%v arrivals=%d N=%d", Hx(id), t, r.phi, sr.phi, sr.panicked, len(hist), e.n))
 	}
 	// (4) monotone in t (queries of a known node do not change state)
 	if t >= last {
@@ -258,7 +282,7 @@ func (e *fdEngine) checkPhi(o *Out, id string, t int64, r res) {
 		for _, dt := range []int64{1, step, 50 * step} {
 			r2 := e.query(e.d, id, t+dt)
 			if r2.panicked || r2.phi < r.phi || (dt > 1 && !(r2.phi > r.phi)) {
-				o.Fail("C12", "monotone", fmt.Sprintf("%s phi(%d)=%.17g phi(%d)=%.17g", Hx(id), t, r.phi, t+dt, r2.phi))
+				e.fail(o, "monotone", fmt.Sprintf("%s phi(%d)=%.17g phi(%d)=%.17g", Hx(id), t, r.phi, t+dt, r2.phi))
 			}
 		}
 	}
@@ -275,14 +299,14 @@ func (e *fdEngine) checkPhi(o *Out, id string, t int64, r res) {
 	if lo > 0 && hi <= theta*lo && t <= last+hi {
 		o.Count("oracle:C12:accuracy")
 		if r.phi > float64(theta)*(1+1e-9) {
-			o.Fail("C12", "accuracy", fmt.Sprintf("%s phi=%g lo=%d hi=%d", Hx(id), r.phi, lo, hi))
+			e.fail(o, "accuracy", fmt.Sprintf("%s phi=%g lo=%d hi=%d", Hx(id), r.phi, lo, hi))
 		}
 	}
 	// (6) completeness: after a silence of theta*mean (+1e-6 relative) the level exceeds theta
 	T := theta*sum/int64(len(win)) + 1
 	T += T/1000000 + 1
 	if rc := e.query(e.d, id, last+T); rc.panicked || !(rc.phi > float64(theta)) {
-		o.Fail("C12", "completeness", fmt.Sprintf("%s silence=%d phi=%g", Hx(id), T, rc.phi))
+		e.fail(o, "completeness", fmt.Sprintf("%s silence=%d phi=%g", Hx(id), T, rc.phi))
 	}
 	o.Count("oracle:C12:phi")
 }
@@ -330,7 +354,7 @@ func (e *fdEngine) Step(ws []string, o *Out) string {
 		if r.panicked {
 			kind := panicKind(r.msg)
 			if e.n > 0 || kind != "panic index" {
-				o.Fail("C12", "report-panic", Hx(id)+" "+Hx(r.msg))
+				e.fail(o, "report-panic", Hx(id)+" "+Hx(r.msg))
 			}
 			o.Count("panic:report")
 			return kind + " " + e.show(id)
@@ -340,7 +364,7 @@ func (e *fdEngine) Step(ws []string, o *Out) string {
 		// zero at the moment of arrival, on the real detector
 		if _, sum := refWindow(e.b, e.n, e.hist[id]); sum > 0 {
 			if z := e.query(e.d, id, t); z.panicked || z.phi != 0 {
-				o.Fail("C12", "zero-at-arrival", fmt.Sprintf("%s t=%d phi=%g panic=%v", Hx(id), t, z.phi, z.panicked))
+				e.fail(o, "zero-at-arrival", fmt.Sprintf("%s t=%d phi=%g panic=%v", Hx(id), t, z.phi, z.panicked))
 			}
 		}
 		return "ok " + e.show(id)
@@ -361,13 +385,22 @@ func (e *fdEngine) Step(ws []string, o *Out) string {
 			e.hist[id] = []int64{t}
 			o.Count("query:unknown")
 		}
+		if !known && !now && !r.panicked && e.n > 0 && e.b > 0 {
+			// a node never heard from must still become suspected eventually: the level after a
+			// silence of theta bootstrap intervals (+1e-6 relative) counted from this first query
+			T := theta*e.b + 1
+			T += T/1000000 + 1
+			if rc := e.query(e.d, id, t+T); rc.panicked || !(rc.phi > float64(theta)) {
+				e.fail(o, "completeness-never-heard", fmt.Sprintf("%s first-query=%d silence=%d phi=%g", Hx(id), t, T, rc.phi))
+			}
+		}
 		e.checkState(o, id)
 		e.checkPhi(o, id, t, r)
 		if r.panicked {
 			o.Count("panic:query")
 			kind := panicKind(r.msg)
 			if strings.HasPrefix(kind, "panic other") || (kind == "panic index" && e.n > 0) {
-				o.Fail("C12", "query-panic", Hx(id)+" "+Hx(r.msg))
+				e.fail(o, "query-panic", Hx(id)+" "+Hx(r.msg))
 			}
 			return kind + " " + e.show(id)
 		}
